@@ -408,6 +408,7 @@ func runR17(c *Ctx) {
 	}
 	s := &r2State{c: c, agg: map[string]*Obligation{}}
 	s.cmpCanceled = comparedWithCanceled(c)
+	s.cancelForms = map[string]map[string]token.Pos{}
 	for _, d := range c.declsInScope() {
 		pv := paramVars(d)
 		var ctxP *types.Var
@@ -427,6 +428,20 @@ func runR17(c *Ctx) {
 		}
 		d := d
 		c.Walk("R17", &core.Config{Follow: waitHelperFollow(d.Obj)}, core.Entry{Decl: d}, func(p *core.Path) { s.interruptPath(d, ctxP, chans, p) })
+	}
+	// the places of one function that report the end of its context agree on what they report: the
+	// literal context.Canceled at one place and <ctx>.Err() at another differ for an expired deadline
+	for _, name := range s.cancelOrder {
+		forms := s.cancelForms[name]
+		var pos token.Pos
+		for _, p := range forms {
+			if !pos.IsValid() || p > pos {
+				pos = p
+			}
+		}
+		s.note("R17", name+"/cancellation-returns-agree", pos, len(forms) > 1,
+			"every place of the function that reports the end of its context reports it in the same form",
+			"the function reports the end of its context as the literal context.Canceled at one place and as <ctx>.Err() at another: for a context whose deadline expires the two differ (context.DeadlineExceeded), so what the caller gets depends on where the expiry is noticed", nil)
 	}
 	for _, k := range s.order {
 		c.Add(s.agg[k])
@@ -811,6 +826,19 @@ func (s *r2State) interruptPath(d *core.FuncDecl, ctxP *types.Var, chans []*type
 						if v := iv(sel.X, ev.Frame); v != nil && ctxs[v] {
 							isCanceled = true
 						}
+					}
+				}
+				if isCanceled && ev.Frame.Parent == nil && ctxEv && !closedEv && !cancelEv {
+					form := "the literal context.Canceled"
+					if _, isCall := unparen(r).(*ast.CallExpr); isCall {
+						form = "<ctx>.Err()"
+					}
+					if s.cancelForms[name] == nil {
+						s.cancelForms[name] = map[string]token.Pos{}
+						s.cancelOrder = append(s.cancelOrder, name)
+					}
+					if _, has := s.cancelForms[name][form]; !has {
+						s.cancelForms[name][form] = ev.Pos
 					}
 				}
 				if isCanceled {
